@@ -109,6 +109,8 @@ def run(tier, seed, pid="C16", driver="disp"):
             elif inc["kind"] in ("slow", "slow-twice"):
                 out.inconclusive.append("np=%d case %s exceeded the watchdog (%s) but ranks were still logging events" % (inc["np"], inc.get("case"), inc["kind"]))
                 out.counters["slow_runs"] = out.counters.get("slow_runs", 0) + 1
+            elif inc["kind"] == "stopped":
+                out.counters["launches_stopped_early"] = out.counters.get("launches_stopped_early", 0) + 1
             elif inc["kind"] == "crash":
                 site = engine.crash_site_from_stderr(inc.get("stderr") or "") or "rc%s" % inc.get("rc")
                 out.add_violation("%s:crash:%s:%s" % (pid, driver, site), dict(driver=driver, flavour="P-real", case=inc["case"], monitor="crash", np=inc["np"], env=env, replay_special="mpi",
